@@ -186,6 +186,14 @@ def make_hook(prog: Program, extra: Callable[[ast.Call, Evaluator], Any] = None)
     def get_attr(base: Any, attr: str) -> Any:
         if isinstance(base, ClassRef) and enum_kind(base.ci):
             return enum_member(base.ci, attr)
+        if isinstance(base, ClassRef):
+            a = prog.class_attr_expr(base.ci, attr)
+            if a:
+                return Evaluator(prog, a[0].module, a[0], {}, hook).ev(a[1])
+        if isinstance(base, SimpleNamespace) and hasattr(base, "__cls__"):
+            a = prog.class_attr_expr(base.__cls__, attr)
+            if a and prog.find_method(base.__cls__, attr) is None:
+                return Evaluator(prog, a[0].module, a[0], {}, hook).ev(a[1])
         if isinstance(base, SimpleNamespace) and hasattr(base, "__cls__"):
             m = prog.find_method(base.__cls__, attr)
             if m is not None and m.kind == "property":
